@@ -179,8 +179,6 @@ open Spec
 
 theorem rm_codeA1 : rowsMatchB codeA1 tableA1 = true := by decide
 theorem rm_codeA2 : rowsMatchB codeA2 tableA2 = true := by decide
-theorem rm_fixedA1 : rowsMatchB tableA1Fixed tableA1 = true := by decide
-theorem rm_oldA1 : rowsMatchB tableA1Old tableA1 = true := by decide
 
 theorem band_le4 (a2 : Bool) (c : Int) : band (annex a2) c ≤ 4 := by
   cases a2 <;> simp only [band, annex, tableA1, tableA2] <;>
@@ -191,19 +189,22 @@ theorem target_codeA2 (c : Int) (h0 : 0 ≤ c) (h1 : c ≤ 10000) : target codeA
   repeat' split
   all_goals (simp at *; try omega)
 
-theorem target_codeA1 (c : Int) (h0 : 0 ≤ c) (h1 : c ≤ 10000) (hk : ¬ (6000 ≤ c ∧ c < 6500)) :
+theorem target_codeA1 (c : Int) (h0 : 0 ≤ c) (h1 : c ≤ 10000) :
     target codeA1 c = band tableA1 c := by
   simp only [codeA1, Generated.Dcc.tableA1, List.map, Row.ofRaw, target, band, tableA1, List.filter]
   repeat' split
   all_goals (simp at *; try omega)
 
-theorem target_fixedA1 (c : Int) (h0 : 0 ≤ c) (h1 : c ≤ 10000) : target tableA1Fixed c = band tableA1 c := by
-  simp only [tableA1Fixed, target, band, tableA1, List.filter]
-  repeat' split
-  all_goals (simp at *; try omega)
+theorem rm_code (a2 : Bool) : rowsMatchB (codeTable a2) (annex a2) = true := by
+  cases a2
+  · exact rm_codeA1
+  · exact rm_codeA2
 
-/-- the repaired code: Table A.2 as generated, Table A.1 with the Annex A edge -/
-def fixedTable (a2 : Bool) : Table := if a2 then codeA2 else tableA1Fixed
+theorem target_code (a2 : Bool) (c : Int) (h0 : 0 ≤ c) (h1 : c ≤ 10000) :
+    target (codeTable a2) c = band (annex a2) c := by
+  cases a2
+  · exact target_codeA1 c h0 h1
+  · exact target_codeA2 c h0 h1
 
 theorem run_replicate_dist (tbl : Table) (c : Int) (hv : ¬ (c < 0 ∨ 10000 < c)) :
     ∀ (n s : Nat), dist (run tbl s (List.replicate n c)) (target tbl c) = dist s (target tbl c) - n := by
@@ -220,24 +221,26 @@ theorem run_replicate_dist (tbl : Table) (c : Int) (hv : ¬ (c < 0 ∨ 10000 < c
     rw [this, dist_step]
     omega
 
+/-- last edge of the two Annex A tables -/
+def lastEdge (a2 : Bool) : Int := if a2 then 6500 else 6000
+
 theorem band_cases (a2 : Bool) (c : Int) : band (annex a2) c =
-    if c < 3000 then 0 else if c < 4000 then 1 else if c < 5000 then 2 else if c < 6500 then 3 else 4 := by
-  have he : (annex a2).edges = [3000, 4000, 5000, 6500] := by cases a2 <;> rfl
-  simp only [band, he]
-  by_cases h1 : (3000 : Int) ≤ c <;> by_cases h2 : (4000 : Int) ≤ c <;> by_cases h3 : (5000 : Int) ≤ c <;>
-    by_cases h4 : (6500 : Int) ≤ c <;> simp [List.filter, h1, h2, h3, h4] <;> (repeat' split) <;> omega
+    if c < 3000 then 0 else if c < 4000 then 1 else if c < 5000 then 2 else if c < lastEdge a2 then 3 else 4 := by
+  cases a2 <;> simp only [band, annex, tableA1, tableA2, lastEdge, Bool.false_eq_true, if_false, if_true] <;>
+  · by_cases h1 : (3000 : Int) ≤ c <;> by_cases h2 : (4000 : Int) ≤ c <;> by_cases h3 : (5000 : Int) ≤ c <;>
+      by_cases h4 : (6000 : Int) ≤ c <;> by_cases h5 : (6500 : Int) ≤ c <;>
+      simp [List.filter, h1, h2, h3, h4, h5] <;> (repeat' split) <;> omega
 
 theorem inBand_iff (a2 : Bool) (c : Int) (h0 : 0 ≤ c) (h1 : c ≤ 10000) (s : Nat) :
     inBand (annex a2) s c ↔ s = band (annex a2) c := by
   rw [band_cases]
-  have he : (annex a2).edges = [3000, 4000, 5000, 6500] := by cases a2 <;> rfl
-  simp only [inBand, lo, hi, he]
-  constructor
-  · rintro ⟨hs, hl, hh⟩
-    have : s = 0 ∨ s = 1 ∨ s = 2 ∨ s = 3 ∨ s = 4 := by omega
-    rcases this with rfl | rfl | rfl | rfl | rfl <;> simp at hl hh <;> (repeat' split) <;> omega
-  · intro hs
-    subst hs
-    (repeat' split) <;> simp at * <;> omega
+  cases a2 <;> simp only [inBand, lo, hi, annex, tableA1, tableA2, lastEdge, Bool.false_eq_true, if_false, if_true] <;>
+  · constructor
+    · rintro ⟨hs, hl, hh⟩
+      have : s = 0 ∨ s = 1 ∨ s = 2 ∨ s = 3 ∨ s = 4 := by omega
+      rcases this with rfl | rfl | rfl | rfl | rfl <;> simp at hl hh <;> (repeat' split) <;> omega
+    · intro hs
+      subst hs
+      (repeat' split) <;> simp at * <;> omega
 
 end FlexModel.Dcc
